@@ -165,7 +165,8 @@ def check_C02(ctx):
     except Broken as b:
         broken.append(b)
     ctx.coverage["rule"] = ("random paths of the documented grammar (depth<=4, / | ^ @type, parentheses) x random graphs "
-                            "(2..7 nodes, links incl. cycles, shared children, dangling links, literals mid-path); a case is non-trivial when the path reaches >=1 value")
+                            "(2..7 nodes, links incl. cycles, shared children, dangling links, literals mid-path, anonymous nodes with blank-node labels on and at the end of the path); predicates also in the built-in `core` vocabulary (alias not declared), "
+                            "in namespaces ending in neither # nor /, with percent-encoded characters, under a re-bound built-in alias; observers: set, array (uniqueValues), minCount and exactCount; a case is non-trivial when the path reaches >=1 value")
     ctx.assumptions += ["Rego evaluation of nested_nodes/search_subjects/nodes_array (OPA) is modelled by stepItems"]
     return conclude(ctx, broken, trusted=TRUST_COMMON)
 
@@ -1592,7 +1593,8 @@ def check_C15(ctx):
     ctx.coverage["rule"] = ("random profiles of the full declarative language; spelling A canonical; spelling B: every mapping (top level, prefixes, validations, propertyConstraints, constraint keys, if/then/else, count/validation), "
                             "level list and and/or operand list shuffled, conjunctions merged into one propertyConstraints map, block/flow style, plain/single/double quoting, comments, blank lines, indentation 2 or 4; "
                             "spelling C: additionally every compact IRI uses one of three prefixes (incl. `_` and `-`) bound to the same namespace, datatypes (incl. the sized integer types) go through a second alias of the XML Schema namespace; "
-                            "in a quarter of the cases the validation names are texts YAML reads as a number, boolean, null or date when a KEY is written plain (keys plain or quoted at random, list VALUES always quoted); all on the same graph. "
+                            "in a quarter of the cases the validation names are texts YAML reads as a number, boolean, null or date when a KEY is written plain (keys plain or quoted at random, list VALUES always quoted); strings as plain, single- and double-quoted (a tab as escape or as itself), literal and folded block scalars with and without a final line break; a second expression keyword next to propertyConstraints, which the parser ignores wherever it stands; "
+                            "results are compared with their messages; all on the same graph. "
                             "Parser stream: the repository's fixture profiles, generated profiles, their structural mutations (duplicated and conflicting keys, wrongly typed values), and hostile texts; the real parser's dump (verif hook DumpProfile) against the parser model run on yaml.v3's node tree")
     ctx.assumptions += ["yaml.v3 maps the style variants to the same node tree (kind, tag, value): dependency, observed only"]
     return conclude(ctx, broken, trusted=TRUST_COMMON)
